@@ -208,8 +208,17 @@ def _policy(ck: Checker, df: Func) -> None:
         ck.fail("C19.policy", df, df.node, "no loop that rejects every change kind outside the allowed set with MergeError")
         return
     h, t = checked
+    # the loop's iterable: returning early is fine across "there is no change at all" (zero iterations anyway)
+    it_name = norm(h.ast.iter)
+
+    def nothing_to_test(a, lab, b):
+        if a.kind != "test":
+            return False
+        t_ = norm(a.ast)
+        return (t_ == it_name and lab == "F") or (t_ == f"not {it_name}" and lab == "T")
+
     for n in rets:
-        w = avoiding_path(g, n.id, lambda x: x.id == h.id)
+        w = avoiding_path(g, n.id, lambda x: x.id == h.id, stop_edge=nothing_to_test)
         ck.require(w is None, "C19.policy", df, n, "normal return only after the change kinds were tested against the policy",
                    "the diff can be returned without its change kinds having been tested against the allowed set (e.g. policy check skipped when `allowed` is None)",
                    witness=g.fmt_path(w) if w else None)
